@@ -14,7 +14,7 @@
 //	                               fresh client and probe again
 //
 // Operations (O):  blob_put:<L>  put_tag:<tag>:<M>  put_digest:<M>  put_child:<M>  put_index:<tag>:<IX>
-// put_ref:<tag>:<A>  put_refd:<A>  tag_delete:<tag>  man_delete:<M>  copy:<tag>:<srctag>
+// put_ref:<tag>:<A>  put_refd:<A>  tag_delete:<tag>  man_delete:<M>  blob_delete:<L>  retag:<tag>:<oldtag>  copy:<tag>:<srctag>
 // copy_ref:<tag>:<srctag>  import:<tag>:<tarname> ; the suffix "+gc" calls rc.Close (garbage collection)
 // after the operation, like regctl does.
 package main
@@ -376,6 +376,13 @@ func runOp(ctx context.Context, rc *regclient.RegClient, dir, src, op string) (e
 		err = rc.TagDelete(ctx, closeRef)
 	case "man_delete":
 		err = rc.ManifestDelete(ctx, tref(dir, cat[arg(1)].Digest))
+	case "blob_delete":
+		o := cat[arg(1)]
+		err = rc.BlobDelete(ctx, tref(dir, ""), descriptor.Descriptor{MediaType: o.MediaType, Digest: digest.Digest(o.Digest), Size: o.Size})
+	case "retag":
+		// copy inside one layout: only the top manifest is pushed under the new tag
+		closeRef = tref(dir, arg(1))
+		err = rc.ImageCopy(ctx, tref(dir, arg(2)), closeRef)
 	case "copy", "copy_ref":
 		closeRef = tref(dir, arg(1))
 		opts := []regclient.ImageOpts{}
